@@ -317,31 +317,37 @@ func (p *Process) Run() {
 	var nextTask *Task
 	tasks := p.createTasks()
 	for tasks != nil || len(startedTasks) > 0 {
+		verifPoint("proc.select", p.name, len(startedTasks))
 		select {
 		case t, ok := <-tasks:
 			if !ok {
 				tasks = nil
 			} else {
 				// Sending FIFOs for the task
+				verifTask("proc.task_received", t, 0)
 				for oname, oip := range t.OutIPs {
 					if oip.doStream {
 						if oip.FifoFileExists() {
 							p.Failf("Fifo file exists, so exiting (clean up fifo files before restarting the workflow): %s", oip.FifoPath())
 						}
 						oip.CreateFifo()
+						verifTask("proc.fifo_created", t, 0)
 						p.Out(oname).Send(oip)
 					}
 				}
 
 				// Execute task in separate go-routine
 				go t.Execute()
+				verifTask("proc.task_spawned", t, 0)
 
 				startedTasks = append(startedTasks, t)
 			}
 		case <-startedTasks.NextTaskDone():
 			nextTask, startedTasks = startedTasks[0], startedTasks[1:]
+			verifTask("proc.head_done", nextTask, 0)
 			for oname, oip := range nextTask.OutIPs {
 				if !oip.doStream { // Streaming (FIFO) outputs have been sent earlier
+					verifPoint("proc.out_send", p.name, 0)
 					p.Out(oname).Send(oip)
 				}
 				// Remove any FIFO file
@@ -352,8 +358,10 @@ func (p *Process) Run() {
 					}
 				}
 			}
+			verifTask("proc.outputs_sent", nextTask, 0)
 		}
 	}
+	verifPoint("proc.closing", p.name, 0)
 }
 
 // createTasks is a helper method for Run that creates tasks based on incoming
@@ -388,6 +396,7 @@ func (p *Process) createTasks() (ch chan *Task) {
 				}
 			}
 
+			verifPoint("proc.inputs_received", p.name, 0)
 			for iname, ip := range inIPs {
 				for k, v := range ip.Tags() {
 					tags[iname+"."+k] = v
@@ -395,6 +404,7 @@ func (p *Process) createTasks() (ch chan *Task) {
 			}
 
 			// Create task and send on the channel we are about to return
+			verifPoint("proc.task_creating", p.name, 0)
 			ch <- NewTask(p.workflow, p, p.Name(), p.CommandPattern, inIPs, p.PathFuncs, p.PortInfo, params, tags, p.Prepend, p.CustomExecute, p.CoresPerTask)
 
 			// If we have no in-ports nor param in-ports, we should break after the first iteration
